@@ -94,8 +94,9 @@ def consistency_rule(F, rep):
     rep.ob("consistent.metadata", payload("metadata.json") == ("json", "game.metadata"), peppifmt.WRITE, "metadata", "metadata.json must be the JSON rendering of game.metadata; got %s" % (payload("metadata.json"),))
     # the reader rebuilds start/end through the same decoders the .slp reader uses
     G = reach.Graph(F)
-    for fn, dec in (("io::peppi::de::read_peppi_start", "io::slippi::de::game_start"), ("io::peppi::de::read_peppi_end", "io::slippi::de::game_end")):
-        rep.ob("consistent.decoder", dec in G.edges(fn), fn, "decoder", "%s must decode through %s" % (fn, dec))
+    Rr = G.reachable([peppifmt.READ])
+    for dec in ("io::slippi::de::game_start", "io::slippi::de::game_end"):
+        rep.ob("consistent.decoder", dec in Rr, peppifmt.READ, dec.split("::")[-1], "the .slpp reader must rebuild the raw block through %s" % dec)
     # .. from the whole raw entry: what start.json / end.json render is what the reader reconstructs
     from props import C02
     C02.raw_decoder_rule(F, rep, "consistent.whole-entry")
@@ -144,6 +145,38 @@ def name_total_rule(F, rep, m, loop):
             return
         root = let["init"]
         seen += 1
+    # the name is the entry's *resolved* path (tar::Entry::path follows GNU long-name and pax records); the raw 100-byte name
+    # field of the header (Header::path / path_bytes) is a truncation that can alias a known entry name
+    env = tir.LetEnv(loop["body"])
+    srcs = []
+    work = [root]
+    seen_ids = set()
+    while work:
+        e = work.pop()
+        for x in tir.walk(e):
+            if x.get("k") == "MethodCall" and x["method"] in ("path", "path_bytes", "path_lossy", "link_name") and (declared(x) or "").startswith("tar::"):
+                srcs.append(x)
+            if x.get("k") == "Path" and x.get("res") == "local" and x.get("id") in env.lets and x.get("id") not in seen_ids:
+                seen_ids.add(x["id"])
+                work.append(env.lets[x["id"]])
+    ok_src = len(srcs) == 1 and srcs[0]["method"] == "path" and (declared(srcs[0]) or "").startswith("tar::Entry") and not any(
+        y.get("k") == "MethodCall" and y["method"] == "header" for y in tir.walk(srcs[0]["recv"]))
+    rep.ob("reader.name-source", ok_src, peppifmt.READ, "entry-path", "the dispatch name must come from tar::Entry::path() of the entry (got %s): the header's raw name field is truncated to 100 bytes" % [
+        (declared(x) or x["method"]) for x in srcs][:3], sample={"source": [declared(x) for x in srcs]})
+    # every entry of the archive is visited: the loop runs over Archive::entries() itself — an adaptor that bounds, skips or
+    # filters the sequence (take, skip, step_by, filter, take_while ..) lets unknown entries push known ones out of reach
+    it = loop["iter"]
+    chain = []
+    env_it = tir.LetEnv(F.body(peppifmt.READ)["tir"]["value"])
+    x = L.strip_try(strip(it))
+    if x.get("k") == "Path" and x.get("res") == "local":
+        x = L.strip_try(env_it.resolve(x))
+    while x.get("k") == "MethodCall" and not (x["method"] == "entries" and (declared(x) or "").startswith("tar::Archive")):
+        chain.append(x["method"])
+        x = L.strip_try(strip(x["recv"]))
+    is_entries = x.get("k") == "MethodCall" and x["method"] == "entries" and (declared(x) or "").startswith("tar::Archive")
+    bad_ad = [m_ for m_ in chain if m_ not in ("into_iter", "by_ref", "peekable", "fuse")]
+    rep.ob("reader.all-entries", is_entries and not bad_ad, peppifmt.READ, "entries", "the entry loop must run over tar::Archive::entries() itself; adaptors applied: %s" % (bad_ad or chain), tir.sp(it))
     par = safety.parents(root)
     names = [x for x in tir.walk(root) if x.get("k") == "MethodCall" and x["method"] in ("file_name", "to_str", "to_string_lossy", "file_stem")]
     bad = []
